@@ -360,6 +360,14 @@ def _cap_bound_one(ctx, rid, fi, loop, acc, tag, head_acc, alg, ev, capatom, sum
     back1 = [b for k, b in summ.body_states if k == 'back']
     back2 = [b for k, b in summ.body_states if k == 'back2']
     if not back2:
+        if back1:
+            # every path through the first layer ends the loop: with a cap given the variant returns one component
+            # whatever the cap is (the cap test is true, or made true, for every value)
+            ctx.violation(rid, fi, construct, 'with a cap given the layer loop is left after the first layer on every path: '
+                          'one component is returned whatever the cap', node=loop,
+                          expected='the loop continues while fewer than %s components are extracted' % CAP,
+                          path=trace_tail(back1[0], 8))
+            return
         raise AnalysisError('%s: layer loop never repeats' % fi.qualname)
     # an accumulator that starts as None holds columns after the first layer: later-iteration paths that assume it
     # is still None are infeasible (every iteration end stores component columns, C03.R6)
